@@ -238,12 +238,23 @@ def run_case(case):
                 from mc.checks.c01 import sqrt_psd
                 P = A.lattice(NSCRIPT, len(free))
                 if protocol_ok:
-                    with seams.seam(script={'multivariate_normal':
-                                            lambda mean, cov, size: np.asarray(mean)[None, :] +
-                                            stats.norm.ppf(P) @ sqrt_psd(np.asarray(cov, float)).T}):
-                        r.tr()
-                        gm.set_random_state(None)
-                        out = gm.sample(NSCRIPT, conditions=dict(vals))
+                    class DrawDimension(Exception):
+                        pass
+
+                    def scripted_mvn(mean, cov, size):
+                        if len(np.ravel(mean)) != len(free):
+                            raise DrawDimension(len(np.ravel(mean)))
+                        return np.asarray(mean)[None, :] + stats.norm.ppf(P) @ sqrt_psd(np.asarray(cov, float)).T
+                    try:
+                        with seams.seam(script={'multivariate_normal': scripted_mvn}):
+                            r.tr()
+                            gm.set_random_state(None)
+                            out = gm.sample(NSCRIPT, conditions=dict(vals))
+                    except DrawDimension as ex:
+                        r.violation('C12:script:draw-dimension', f'{tag0}, conditions {vals}: the normal draw has dimension {ex} '
+                                    f'but {len(free)} columns are free (a condition was ignored or a free column dropped)',
+                                    case=case)
+                        continue
                     band = 0.03
                 else:
                     gm.set_random_state(777 + int(seed))
